@@ -120,6 +120,10 @@ def b_len(eng, st, args, kw, origin):
             return _one(st, exc("TypeError", str(e), origin))
     if isinstance(a, VStr):
         return _one(st, VInt(z3.Length(a.t)))
+    if type(a).__name__ == "VAStr":
+        return _one(st, VInt(a.n))
+    if type(a).__name__ == "VChr":
+        return _one(st, VC(1))
     if isinstance(a, VBytes):
         return _one(st, VInt(z3.Length(a.t)))
     if isinstance(a, VTuple):
@@ -212,6 +216,10 @@ def _isinstance1(eng, st, v, ty):
     if isinstance(v, VFloat):
         return n == "float"
     if isinstance(v, VStr):
+        return n == "str"
+    if type(v).__name__ == "VAStr":
+        return n == ("bytes" if v.is_bytes else "str")
+    if type(v).__name__ == "VChr":
         return n == "str"
     if isinstance(v, VBytes):
         return n == "bytes"
@@ -352,6 +360,8 @@ def b_ord(eng, st, args, kw, origin):
         return _one(st, VC(ord(a.py)))
     if isinstance(a, VStr):
         return _one(st, VInt(z3.StrToCode(a.t)))
+    if type(a).__name__ == "VChr":
+        return _one(st, VInt(a.c))
     raise Unsupported("ord")
 
 
@@ -571,6 +581,10 @@ def _norm_index(n, i):
 
 
 def get_item(eng, st, obj, idx, origin):
+    if type(obj).__name__ == "VAStr":
+        from . import astr
+
+        return astr.get_item(eng, st, obj, idx, origin)
     if isinstance(obj, VC) and isinstance(idx, VC):
         try:
             return _one(st, lift(obj.py[idx.py]))
@@ -685,6 +699,12 @@ def contains(eng, st, container, item, origin):
             return [(st, item.py in container.py)]
         except TypeError as e:
             return [(st, exc("TypeError", str(e), origin))]
+    if type(item).__name__ == "VChr":
+        from . import astr
+
+        r = astr.contains(eng, st, container, item)
+        if r is not None:
+            return [(st, r)]
     if S.is_strlike(container):
         if S.is_strlike(item):
             return [(st, z3.Contains(S.to_str_term(container), S.to_str_term(item)))]
@@ -735,6 +755,10 @@ def call_method(eng, st, recv, name, args, kwargs, origin, star_kwargs=None):
         return outs
     if isinstance(recv, VC) and recv.py is None:
         return _one(st, exc("AttributeError", f"'NoneType' object has no attribute '{name}'", origin))
+    if type(recv).__name__ == "VAStr":
+        from . import astr
+
+        return astr.method(eng, st, recv, name, args, kwargs, origin)
     if S.is_strlike(recv):
         from . import strings
 
